@@ -1659,3 +1659,108 @@ Proof.
   intros Hx Hy Hz Wx Wy Wz Hh st D Hok Hs Hb Hne. apply (cg_error_strict3 sc sm sh Hx Hy Hz Wx Wy Wz); auto.
   apply run3_consistent; auto. apply set_div3_consistent; auto.
 Qed.
+
+(* ================================================================== consistency: the scheme is exact on cubics
+   Gradient data equal to the gradient of a polynomial U of total degree <= 3 at the bin centres: at every interior
+   PMF node the divergence stored by set_div / update_div_neighbors equals the discrete Laplacian (atimes) of the
+   samples of U at the nodes, EXACTLY.  (This is the algebraic content of second-order consistency: for a C^4 surface
+   the local truncation error is the Taylor remainder of degree 4, O(w^2).) *)
+Section Consistency2.
+  Variable sc : smooth_cfg.
+  Variable sm : bool.
+  Variable sh : shape2 (T:=R).
+  Variable st : state2 (T:=R).
+  Variables x0 y0 : R.
+  Variables c00 c10 c01 c20 c11 c02 c30 c21 c12 c03 : R.
+  Notation Nx := (npmf (px sh) (nxg sh)).
+  Notation Ny := (npmf (py sh) (nyg sh)).
+
+  Definition cubU (x y : R) : R :=
+    c00 + c10 * x + c01 * y + c20 * x * x + c11 * x * y + c02 * y * y
+    + c30 * x * x * x + c21 * x * x * y + c12 * x * y * y + c03 * y * y * y.
+  Definition cubUx (x y : R) : R := c10 + 2 * c20 * x + c11 * y + 3 * c30 * x * x + 2 * c21 * x * y + c12 * y * y.
+  Definition cubUy (x y : R) : R := c01 + c11 * x + 2 * c02 * y + c21 * x * x + 2 * c12 * x * y + 3 * c03 * y * y.
+  (* PMF node i sits at x0 + i w; gradient bin a lies between nodes a and a+1, its centre at x0 + (a + 1/2) w *)
+  Definition nodx (i : Z) : R := x0 + IZR i * wx sh.
+  Definition nody (j : Z) : R := y0 + IZR j * wy sh.
+  Definition cenx (a : Z) : R := x0 + (IZR a + / 2) * wx sh.
+  Definition ceny (b : Z) : R := y0 + (IZR b + / 2) * wy sh.
+
+  Lemma scheme_exact_on_cubics2 i j :
+    (1 <= i <= Nx - 2)%Z -> (1 <= j <= Ny - 2)%Z -> wx sh <> 0 -> wy sh <> 0 ->
+    (forall a b, (a = i - 1 \/ a = i)%Z -> (b = j - 1 \/ b = j)%Z ->
+       gval2 Rops sc sm sh st (a, b) = (cubUx (cenx a) (ceny b), cubUy (cenx a) (ceny b))) ->
+    div_value2 Rops sc sm sh st (i, j) = atimes2 Rops sh (fun p => cubU (nodx (fst p)) (nody (snd p))) (i, j).
+  Proof.
+    intros Hi Hj Wx Wy Hg. rewrite atimes2_eq. unfold div_value2, div_formula2. cbn [fst snd].
+    rewrite !Hg by (auto; lia).
+    assert (Ex : efact Rops (px sh) Nx i = 1).
+    { unfold efact. set (N := npmf (px sh) (nxg sh)) in *. destruct (px sh); [reflexivity|].
+      destruct (Z.eqb_spec i 0); [lia|]. destruct (Z.eqb_spec i (N - 1)); [lia|]. reflexivity. }
+    assert (Ey : efact Rops (py sh) Ny j = 1).
+    { unfold efact. set (N := npmf (py sh) (nyg sh)) in *. destruct (py sh); [reflexivity|].
+      destruct (Z.eqb_spec j 0); [lia|]. destruct (Z.eqb_spec j (N - 1)); [lia|]. reflexivity. }
+    assert (Lx : forall a : Z -> R, lap1 Rops (px sh) Nx a i = a (i - 1)%Z + a (i + 1)%Z - 2 * a i).
+    { intros a. unfold lap1. set (N := npmf (px sh) (nxg sh)) in *. destruct (px sh).
+      - fold (wr N (i - 1)) (wr N (i + 1)). rewrite !wr_small by lia. reflexivity.
+      - destruct (Z.eqb_spec i 0); [lia|]. destruct (Z.eqb_spec i (N - 1)); [lia|]. reflexivity. }
+    assert (Ly : forall a : Z -> R, lap1 Rops (py sh) Ny a j = a (j - 1)%Z + a (j + 1)%Z - 2 * a j).
+    { intros a. unfold lap1. set (N := npmf (py sh) (nyg sh)) in *. destruct (py sh).
+      - fold (wr N (j - 1)) (wr N (j + 1)). rewrite !wr_small by lia. reflexivity.
+      - destruct (Z.eqb_spec j 0); [lia|]. destruct (Z.eqb_spec j (N - 1)); [lia|]. reflexivity. }
+    rewrite Ex, Ey, Lx, Ly. cbn [fst snd nadd nsub nmul ndiv n1 nofZ Rops]. unfold nhalf. cbn [ndiv n1 nofZ Rops].
+    unfold cubU, cubUx, cubUy, nodx, nody, cenx, ceny. rewrite !minus_IZR, !plus_IZR. field. split; assumption.
+  Qed.
+End Consistency2.
+
+Section Consistency3.
+  Variable sc : smooth_cfg.
+  Variable sm : bool.
+  Variable sh : shape3 (T:=R).
+  Variable st : state3 (T:=R).
+  Variables x0 y0 z0 : R.
+  Variables k000 k001 k002 k003 k010 k011 k012 k020 k021 k030 k100 k101 k102 k110 k111 k120 k200 k201 k210 k300 : R.
+  Notation Nx := (npmf (qx sh) (mxg sh)).
+  Notation Ny := (npmf (qy sh) (myg sh)).
+  Notation Nz := (npmf (qz sh) (mzg sh)).
+
+  Definition cub3 (x y z : R) : R := k000 + k001 * z + k002 * z * z + k003 * z * z * z + k010 * y + k011 * y * z + k012 * y * z * z + k020 * y * y + k021 * y * y * z + k030 * y * y * y + k100 * x + k101 * x * z + k102 * x * z * z + k110 * x * y + k111 * x * y * z + k120 * x * y * y + k200 * x * x + k201 * x * x * z + k210 * x * x * y + k300 * x * x * x.
+  Definition cub3x (x y z : R) : R := k100 + k101 * z + k102 * z * z + k110 * y + k111 * y * z + k120 * y * y + 2 * k200 * x + 2 * k201 * x * z + 2 * k210 * x * y + 3 * k300 * x * x.
+  Definition cub3y (x y z : R) : R := k010 + k011 * z + k012 * z * z + 2 * k020 * y + 2 * k021 * y * z + 3 * k030 * y * y + k110 * x + k111 * x * z + 2 * k120 * x * y + k210 * x * x.
+  Definition cub3z (x y z : R) : R := k001 + 2 * k002 * z + 3 * k003 * z * z + k011 * y + 2 * k012 * y * z + k021 * y * y + k101 * x + 2 * k102 * x * z + k111 * x * y + k201 * x * x.
+  Definition nod3x (i : Z) : R := x0 + IZR i * vx sh.
+  Definition nod3y (j : Z) : R := y0 + IZR j * vy sh.
+  Definition nod3z (k : Z) : R := z0 + IZR k * vz sh.
+  Definition cen3x (a : Z) : R := x0 + (IZR a + / 2) * vx sh.
+  Definition cen3y (b : Z) : R := y0 + (IZR b + / 2) * vy sh.
+  Definition cen3z (c : Z) : R := z0 + (IZR c + / 2) * vz sh.
+
+  Lemma interior_efact per n i : (1 <= i <= n - 2)%Z -> efact Rops per n i = 1.
+  Proof.
+    intros Hi. unfold efact. destruct per; [reflexivity|].
+    destruct (Z.eqb_spec i 0); [lia|]. destruct (Z.eqb_spec i (n - 1)); [lia|]. reflexivity.
+  Qed.
+  Lemma interior_lap1 per n (a : Z -> R) i : (1 <= i <= n - 2)%Z ->
+    lap1 Rops per n a i = a (i - 1)%Z + a (i + 1)%Z - 2 * a i.
+  Proof.
+    intros Hi. unfold lap1. destruct per.
+    - fold (wr n (i - 1)) (wr n (i + 1)). rewrite !wr_small by lia. reflexivity.
+    - destruct (Z.eqb_spec i 0); [lia|]. destruct (Z.eqb_spec i (n - 1)); [lia|]. reflexivity.
+  Qed.
+
+  Lemma scheme_exact_on_cubics3 i j k :
+    (1 <= i <= Nx - 2)%Z -> (1 <= j <= Ny - 2)%Z -> (1 <= k <= Nz - 2)%Z -> vx sh <> 0 -> vy sh <> 0 -> vz sh <> 0 ->
+    (forall a b c, (a = i - 1 \/ a = i)%Z -> (b = j - 1 \/ b = j)%Z -> (c = k - 1 \/ c = k)%Z ->
+       gval3 Rops sc sm sh st (a, b, c) =
+       (cub3x (cen3x a) (cen3y b) (cen3z c), cub3y (cen3x a) (cen3y b) (cen3z c), cub3z (cen3x a) (cen3y b) (cen3z c))) ->
+    div_value3 Rops sc sm sh st (i, j, k) =
+    atimes3 Rops sh (fun p => cub3 (nod3x (fst (fst p))) (nod3y (snd (fst p))) (nod3z (snd p))) (i, j, k).
+  Proof.
+    intros Hi Hj Hk Wx Wy Wz Hg. rewrite atimes3_eq. unfold div_value3, div_formula3, i3x, i3y, i3z. cbn [fst snd].
+    rewrite !Hg by (auto; lia).
+    rewrite !interior_efact, !interior_lap1 by assumption.
+    unfold t3x, t3y, t3z. cbn [fst snd nadd nsub nmul ndiv n1 nofZ Rops].
+    unfold cub3, cub3x, cub3y, cub3z, nod3x, nod3y, nod3z, cen3x, cen3y, cen3z. rewrite !minus_IZR, !plus_IZR. field.
+    repeat split; assumption.
+  Qed.
+End Consistency3.
